@@ -1,0 +1,63 @@
+//go:build verif
+
+package gobinlog
+
+// Contracts for the JSON serialisation of delivered transactions (transaction.go), property C20: the value handed
+// to encoding/json carries, under each JSON key of the statement, the right source field. Well-formedness,
+// escaping and UTF-8 handling are encoding/json's contract (assumed).
+
+import (
+	"github.com/Breeze0806/gobinlog/internal/vspec"
+)
+
+func vc_ColumnData_MarshalJSON_requires(c *ColumnData) bool { return c != nil }
+
+// name, type name and absent flag are copied; data is JSON null exactly for a nil value (SQL NULL), and otherwise
+// a string with the value's bytes — an empty value stays an empty string
+func vc_ColumnData_MarshalJSON_ensures_fields(c *ColumnData, out []byte, err error, notNullJSON struct {
+	baseColumnJSON
+	Data interface{} `json:"data"`
+}) bool {
+	if notNullJSON.Filed != c.Filed || notNullJSON.Type != c.Type.String() || notNullJSON.IsEmpty != c.IsEmpty {
+		return false
+	}
+	if c.Data == nil {
+		return notNullJSON.Data == nil
+	}
+	s, ok := notNullJSON.Data.(string)
+	return ok && vspec.EqStr(s, c.Data)
+}
+
+func vc_StreamEvent_MarshalJSON_requires(s *StreamEvent) bool { return s != nil }
+
+// an event with SQL text is rendered with its statement, any other with its row images, in order and unchanged;
+// table name and kind always
+func vc_StreamEvent_MarshalJSON_ensures_fields(s *StreamEvent, out []byte, err error, b baseStreamEventJSON, sqlJSON struct {
+	baseStreamEventJSON
+	SQL string `json:"sql"`
+}, RowJSON struct {
+	baseStreamEventJSON
+	RowValues     []*RowData `json:"rowValues"`
+	RowIdentifies []*RowData `json:"rowIdentifies"`
+}) bool {
+	if b.Table != s.Table || b.Type != s.Type.String() {
+		return false
+	}
+	if s.Query.SQL != "" {
+		return sqlJSON.SQL == s.Query.SQL && sqlJSON.Table == s.Table && sqlJSON.Type == s.Type.String()
+	}
+	return RowJSON.Table == s.Table && RowJSON.Type == s.Type.String() &&
+		vspec.SameSlice(RowJSON.RowValues, s.RowValues) && vspec.SameSlice(RowJSON.RowIdentifies, s.RowIdentifies)
+}
+
+func vc_Transaction_MarshalJSON_requires(t *Transaction) bool { return t != nil }
+
+// both positions and the events, in order and unchanged
+func vc_Transaction_MarshalJSON_ensures_fields(t *Transaction, out []byte, err error, tJSON struct {
+	NowPosition  Position       `json:"nowPosition"`
+	NextPosition Position       `json:"nextPosition"`
+	Timestamp    string         `json:"timestamp"`
+	Events       []*StreamEvent `json:"events"`
+}) bool {
+	return tJSON.NowPosition == t.NowPosition && tJSON.NextPosition == t.NextPosition && vspec.SameSlice(tJSON.Events, t.Events)
+}
